@@ -311,6 +311,21 @@ impl Btp {
     }
 }
 
+#[cfg(feature = "verif")]
+impl Btp {
+    /// Flow-control state of the session plus `(outgoing SDU length, offset)`.
+    pub fn verif_state(&self) -> ([u32; 14], usize, usize) {
+        self.inner.lock(|inner| {
+            let inner = inner.borrow();
+            (
+                inner.session.verif_state(),
+                inner.outgoing_sdu.buf.len(),
+                inner.outgoing_sdu.buf_offset,
+            )
+        })
+    }
+}
+
 impl Default for Btp {
     fn default() -> Self {
         Self::new()
